@@ -77,6 +77,7 @@ struct BandedLU {
     int n = 0, kl = 0, ku = 0, ld = 0;
     std::vector<long double> ab; // LAPACK-style band storage with extra kl super-diagonals
     std::vector<int> piv;
+    std::vector<long double> rscale; // row equilibration (powers of two): partial pivoting is not invariant under row scaling
     bool ok = false;
     bool factor(const std::vector<SparseRow>& rows);
     void solve(std::vector<long double>& b) const;
